@@ -9,15 +9,22 @@ PID = "C13"
 LEAN_TARGETS = ["SpecVerif.Props.C13"]
 AUDIT = [("SpecVerif.Props.C13", "SpecVerif.Props.C13")]
 DRIVER = "Drivers/C13.lean"
-REQUIRED_THEOREMS_TODO = [
+REQUIRED_THEOREMS = [
     "SpecVerif.Props.C13.coh_step",
     "SpecVerif.Props.C13.coh_run",
+    "SpecVerif.Props.C13.coh_ofList",
     "SpecVerif.Props.C13.step_atomic",
+    "SpecVerif.Props.C13.step_refines_list",
+    "SpecVerif.Props.C13.run_refines_list",
     "SpecVerif.Props.C13.insert_refines",
     "SpecVerif.Props.C13.setIdx_refines",
     "SpecVerif.Props.C13.extend_refines",
+    "SpecVerif.Props.C13.add_refines",
+    "SpecVerif.Props.C13.getSlice_refines",
     "SpecVerif.Props.C13.getKey_is_scan",
     "SpecVerif.Props.C13.indexForKey_is_scan",
+    "SpecVerif.Props.C13.keys_is_scan",
+    "SpecVerif.Props.C13.clear_list",
 ]
 RULE = (
     "cases = (universe in {self-keyed str, tuple+key fn, keyed spec class, int-keyed tuple}) x (typed/untyped) x "
